@@ -336,6 +336,31 @@ def r5(ctx, lib):
             if lr:
                 cat, det = err_handling(bb_, lr[0])
                 ctx.check(cat in ('PROPAGATED', 'RETURNED', 'ERR-RETURNED'), rule, p + '|linux_reflink-result', lr[0].where(), 'linux_reflink failure is %s' % cat, 'linux_reflink failure is %s %s' % (cat, det))
+                # after the clone succeeded there is nothing left to undo (the backup is gone): what follows - putting the time stamps, owner,
+                # extended attributes back - may fail (utimensat needs ownership, FICLONE only write access) without making the command a failure
+                for k in bb_.calls(r'reflink::restore_(metadata|xattrs)$'):
+                    if not (bb_.dominates(lr[0].bb, k.bb) or any(bb_.dominates(x.bb, k.bb) for x in bb_.calls(r'reflink::safe_reflink$'))):
+                        continue
+                    kcat, kdet = err_handling(bb_, k)
+                    passed_to_logger = False
+                    carriers = forward_locals(bb_, k.dest[0]) | {k.dest[0]}
+                    for _ in range(3):      # ... through the argument tuple of a closure call
+                        for blk_ in bb_.blocks:
+                            for st_ in blk_['stmts']:
+                                if st_['rv']['k'] == 'agg' and any(op_local(o) in carriers for o in st_['rv']['ops']):
+                                    carriers |= forward_locals(bb_, st_['p'][0]) | {st_['p'][0]}
+                    for a_user in bb_.calls():
+                        if a_user is not k and any(op_local(a) in carriers for a in a_user.args):
+                            cb = lib.body(a_user.path) if a_user.path else None
+                            if cb is None:
+                                l0 = op_local(a_user.args[0]) if a_user.args else None
+                                cp = lib.closure_of_type(bb_.local_ty(l0)) if l0 is not None else None
+                                cb = lib.body(cp) if cp else None
+                            if cb is not None and arm_reaches_call(cb, 0, LOG_CALL) and 'Err' not in return_variants_from(cb, 0):
+                                passed_to_logger = True
+                    ctx.check(kcat == 'LOGGED' or passed_to_logger, rule, p + '|after-the-clone|' + k.path.rsplit('::', 1)[-1], k.where(), 'a failure to restore metadata after the clone is a warning (%s)' % ('logged by a helper' if passed_to_logger else kcat),
+                              'the result of %s becomes the result of the whole command although the clone has been made and the backup removed: the file IS deduplicated (and has a new mtime), '
+                              'but it is reported as failed and not counted - every user who deduplicates group-writable files of somebody else gets this (utimensat: EPERM)' % k.path.rsplit('::', 1)[-1])
 
 
 def r6(ctx, lib):
